@@ -174,9 +174,18 @@ def run_case(case, ctx):
             m_ = int(rng.integers(9, 130))
             batches = [rng.normal(0, float(rng.choice([1.0, 1.0, 4.0, 0.3])), size=(m_, cfg["d"])) for _ in range(len(batches))]
             ctx.count("histories_equal_sizes_alternating_spread")
+        coded = False
+        if rng.random() < 0.12:
+            # bounded integer codes (0-9 ratings, 0/1 flags) in batches of one size, re-baselined often: feature ranges and bin counts
+            # repeat exactly from one reference to the next
+            m_ = int(rng.integers(16, 90))
+            hi_ = [int(rng.choice([1, 4, 9])) for _ in range(cfg["d"])]
+            batches = [np.column_stack([np.r_[0, h_, rng.integers(0, h_ + 1, size=m_ - 2)] for h_ in hi_]).astype(float) for _ in range(len(batches))]
+            coded = True
+            ctx.count("histories_of_bounded_integer_codes")
         calls = [("set_reference", batches[0])]
         for X in batches[1:]:
-            if rng.random() < 0.05:
+            if rng.random() < (0.3 if coded else 0.05):
                 calls.append(("set_reference", X))
             else:
                 calls.append(("update", X))
